@@ -351,7 +351,7 @@ fn write_ufo(rng: &mut Rng, u: &UfoSpec, dir: &Path) {
     // group members: pairwise different glyph names (a glyph may sit in one kern1 group only)
     let mut distinct: Vec<String> = vec![];
     for g in &all {
-        if !distinct.contains(&g.key) && distinct.len() < 16 {
+        if !distinct.contains(&g.key) && distinct.len() < 300 {
             distinct.push(g.key.clone());
         }
     }
@@ -375,8 +375,10 @@ fn write_ufo(rng: &mut Rng, u: &UfoSpec, dir: &Path) {
             for k in 0..5 {
                 names.push(format!("@grp{}", k));
             }
+            // one member each, pairwise different (upconverted kern groups must not overlap)
+            names.truncate(distinct.len());
             for (k, gname) in names.iter().enumerate() {
-                let _ = writeln!(gs, "<key>{}</key>\n<array>\n<string>{}</string>\n</array>", xml_esc(gname), xml_esc(&distinct[k % distinct.len()]));
+                let _ = writeln!(gs, "<key>{}</key>\n<array>\n<string>{}</string>\n</array>", xml_esc(gname), xml_esc(&distinct[k]));
                 firsts.push(gname.clone());
             }
         } else {
